@@ -483,13 +483,18 @@ def run(tier, R):
         res = R.bfs(Spec(cfgs), depth=2, max_states=None)
         res2 = None
     else:
-        # two searches: three steps of single operations over the large configuration set, and two steps including the un-rendered pairs
-        # over the lists of up to two items (the pairs make a third level too large)
+        # three searches (three steps over every configuration is ~3*10^7 transitions and did not fit the budget): two steps of single operations
+        # over the whole configuration set; three steps over the focus walker at one size with lists of <= 2 items and the named longer lists;
+        # two steps including the un-rendered pairs over the lists of <= 2 items
         SEQ_DEPTH[0] = -2
-        res = R.bfs(Spec(cfgs), depth=3, max_states=4_000_000)
+        res = R.bfs(Spec(cfgs), depth=2, max_states=4_000_000)
+        deep = [c for c in cfgs if c[0] == "focus" and c[2] == (W, 3) and (len(c[1]) <= 2 or c[1] in lists[-8:])]
+        res3 = R.bfs(Spec(deep), depth=3, max_states=4_000_000)
         SEQ_DEPTH[0] = 0
         small = [c for c in cfgs if len(c[1]) <= 2]
         res2 = R.bfs(Spec(small), depth=2, max_states=None)
+        res = dict(res, states=res["states"] + res3["states"], transitions=res["transitions"] + res3["transitions"], capped=res["capped"] or res3["capped"],
+                   deep={"configs": len(deep), "depth": res3["depth"], "states": res3["states"], "transitions": res3["transitions"], "levels": res3["levels"]})
     tot_states = res["states"] + (res2["states"] if res2 else 0)
     tot_trans = res["transitions"] + (res2["transitions"] if res2 else 0)
     cov = {
@@ -498,12 +503,13 @@ def run(tier, R):
         "traces_validated_against_impl": tot_trans,
         "evaluations": int(R.ctx.counts["evaluations"]),
         "distinct_nontrivial": len(R.ctx.sets.get("nontrivial", ())),
-        "rule": ("BFS" if quick else "two BFS runs (depth 3 without the pair operations; depth 2 with them over the lists of <= 2 items);") + f" depth {res['depth']} from {len(cfgs)} initial (walker kind, item list, box size) configurations: lists of 0..{2 if quick else 3} items over "
+        "rule": ("BFS" if quick else "three BFS runs (depth 2 over every configuration; depth 3 over the focus walker at 4x3 with lists of <= 2 items and the named longer lists; depth 2 with the pair operations over the lists of <= 2 items);") + f" depth {res['depth']} from {len(cfgs)} initial (walker kind, item list, box size) configurations: lists of 0..{2 if quick else 3} items over "
         "{1-row text, 3-row text, selectable icon, 2- and 5-row Edit, zero-row widget, 3-row Columns[Text, Pile]} + 5 longer lists, walkers SimpleFocusListWalker / SimpleListWalker / "
         "a minimal custom walker, sizes 4x{1,2,3,5}; events: 9 keys, press on every row, wheel, set_focus(i, coming_from), set_focus_valign, resize, walker "
         "insert/append/delete/replace, an item changing its own height in place (set_text / set_edit_text), and pairs (set_focus / set_focus_valign, then a walker edit or resize, and the reverse for insert / delete) with no render in between. Every state is rendered and compared with the slice oracle. non-trivial = distinct (rows, focus) renderings that are scrolled or overflow",
         "exhaustive": not res["capped"],
         "bfs_levels": res["levels"],
+        "deep_search": res.get("deep"),
         "pairs_search": None if res2 is None else {"configs": res2["configs"], "depth": res2["depth"], "states": res2["states"], "transitions": res2["transitions"], "levels": res2["levels"]},
         "bound": {"depth": res["depth"], "capped": res["capped"]},
     }
